@@ -14,13 +14,17 @@ EXPLANATION = ("R06.1 open-flag table of the log-file open: write, create, appen
                "the .gz file nor a .restart sibling exists, else `.restart-` + (highest sibling number + 1 | 0); R06.5 rotate flags: not config.append "
                "at start, constant true at rotation; R06.6 = R01.5/R01.3 (index advances iff renamed, rename before create); R06.7 each naming lists "
                "with its own infix predicate. R06.8 the listing that start index, restart numbers and the latest file are taken from recognises exactly the family (shared with R14.2). R06.2 also: the number is cut behind the LAST `_r` of the stem; R06.3 also: at start the current file is looked for under rCURRENT (Timestamps) resp. the CONFIGURED current infix (TimestampsCustomFormat)."
-               " R06.3 also: every helper that names or parses a file at start is given the InfixFormat stored in the naming state. R06.1 also: the path handed back by open_log_file (stored in the active state) is the very path that was opened. R06.9 (shared with R07.2): the original of a compressed file is removed only after its .gz was completely written in the same step, and the encoder's sink cannot swallow a failing write.")
+               " R06.3 also: every helper that names or parses a file at start is given the InfixFormat stored in the naming state. R06.1 also: the path handed back by open_log_file (stored in the active state) is the very path that was opened. R06.9 (shared with R07.2): the original of a compressed file is removed only after its .gz was completely written in the same step, and the encoder's sink cannot swallow a failing write."
+               " R06.10 append wiring: append()/o_append() on Logger and FileLogWriterBuilder reach config.append unchanged (setter tables, Logger mirrors the builder, try_build_state copies the field) (shared configuration-wiring tables, rules/cfgwiring.py).")
 ASSUMPTIONS = ["OpenOptions flag semantics (std)", "lexicographic maximum of the .restart siblings is the highest number (4 digits)"]
 NOT_DECIDED = ["preservation of contents over arbitrary run sequences and directory states", "same-second behaviour beyond the collision test", "cleanup interplay (C07)"]
 FLOORS = {'R06.1': 1, 'R06.3': 6, 'R06.4': 8, 'R06.5': 2}
 
 
 def run(R, ctx):
+    R.rule('R06.10', 'append wiring: append()/o_append() on Logger and FileLogWriterBuilder reach config.append unchanged (setter tables, Logger mirrors the builder, try_build_state copies the field)')
+    import cfgwiring
+    cfgwiring.config_wiring(R, ctx, 'R06.10', 'C06')
     R.rule('R06.1', 'TABLE(open flags)')
     R.rule('R06.2', 'PROVENANCE(start index <= listing of plain + gz files with the number filter)')
     R.rule('R06.3', 'TABLE(start state per naming and append flag)')
